@@ -261,11 +261,12 @@ def error_lines(stderr):
     return out
 
 
-def run_exe(exe, ncalls, timeout=120):
+def run_exe(exe, ncalls, timeout=15):
     """Runs the driver, restarting after a call that kills the process.
     -> dict call number -> ('ok', tokens, mode_ok) | ('abort', signal/returncode, stderr tail) | ('timeout',)"""
     results = {}
     start = 0
+    n_timeouts = 0
     while start < ncalls:
         try:
             r = subprocess.run([exe, str(start)], capture_output=True, timeout=timeout)
@@ -285,6 +286,12 @@ def run_exe(exe, ncalls, timeout=120):
             n = last_started if last_started is not None and last_started not in results else start
             results[n] = ('timeout',)
             start = n + 1
+            n_timeouts += 1
+            if n_timeouts >= 6:
+                # bounded: a unit whose calls keep hanging is inconclusive as a whole, the check must still end
+                for m in range(start, ncalls):
+                    results.setdefault(m, ('timeout',))
+                break
             continue
         if rc == 0:
             break
@@ -341,7 +348,7 @@ class BuildResult:
     built: int = 0
 
 
-def build_and_run(gxx, headers, kernels, workdir, name='tu', run_timeout=120) -> BuildResult:
+def build_and_run(gxx, headers, kernels, workdir, name='tu', run_timeout=15) -> BuildResult:
     """Builds all kernels in one TU (dropping those whose *emitted body* g++ rejects, which are
     re-compiled alone to attribute the error), runs every call.  A g++ error located in harness
     lines raises HarnessError."""
